@@ -213,6 +213,9 @@ def synthetic_cases(ctx, n):
 
         def one():
             N = int(rng.integers(3, 6))
+            kind = ["dense", "gappy", "normal-form-first"][it % 3]
+            if kind != "dense" and N < 5:
+                N = int(rng.integers(5, 7))
             lam = float(rng.uniform(1.5, 3.5))
             om1 = float(rng.uniform(1.2, 2.6))
             om2 = float(om1 * rng.uniform(0.55, 0.9) + 0.0137)
@@ -222,11 +225,24 @@ def synthetic_cases(ctx, n):
                 return
             eta = np.array([lam, 1j * om1, 1j * om2])
             H = {(1, 0, 0, 1, 0, 0): lam, (0, 1, 0, 0, 1, 0): 1j * om1, (0, 0, 1, 0, 0, 1): 1j * om2}
+            # structure of the perturbation: dense (every degree populated), gappy (some degrees — always the lowest — empty, e.g. an
+            # even Hamiltonian or one that starts at degree 5), or low degrees already in normal form (only k_q1 == k_p1 terms there):
+            # the degree loop of the normalisation must go on past a degree that has nothing to remove
+            degs = list(range(3, N + 1))
+            if kind == "gappy":
+                keep = [d for d in degs[1:] if rng.random() < 0.6] or [N]
+                degs = keep
+            ctx.count(f"synthetic Hamiltonians of kind {kind}")
             for _ in range(int(rng.integers(6, 30))):
-                d = int(rng.integers(3, N + 1))
+                d = int(degs[int(rng.integers(len(degs)))])
                 k = [0] * 6
                 for v in rng.integers(0, 6, size=d):
                     k[int(v)] += 1
+                if kind == "normal-form-first" and d <= 4 and k[0] != k[3]:
+                    m = min(k[0], k[3])          # move the surplus hyperbolic exponents to the centre variables: nothing to remove here
+                    extra = k[0] + k[3] - 2 * m
+                    k[0] = k[3] = m
+                    k[1] += extra
                 H[tuple(k)] = H.get(tuple(k), 0) + (rng.normal() + 1j * rng.normal()) * 0.5
             psi, clmo, enc = pu.tables(N)
             blocks = pu.pack(H, N)
@@ -256,7 +272,7 @@ def run(ctx):
     t = q + [("earth-moon", 1, 8), ("earth-moon", 2, 8), ("mu=0.001", 1, 6), ("mu=0.001", 2, 7), ("sun-earth", 2, 6), ("mu=0.3", 1, 5), ("earth-moon", 1, 10),
              ("mu=0.04", 2, 6), ("sun-jupiter", 1, 7), ("sun-jupiter", 2, 4), ("mu=0.2", 1, 6), ("mu=0.5", 2, 5)]
     guarded(ctx, "pipeline", pipeline_cases, ctx, q if ctx.quick else t)
-    guarded(ctx, "synthetic", synthetic_cases, ctx, ctx.pick(6, 120))
+    guarded(ctx, "synthetic", synthetic_cases, ctx, ctx.pick(9, 120))
     one = ctx.nshards > 1
     ctx.require("1:no forbidden monomial of degree 3..N survives[partial]", 2 if one else 5)
     ctx.require("1:no forbidden monomial of degree 3..N survives[full]", 2 if one else 5)
